@@ -22,7 +22,7 @@ CLAIMED = {
    "as C01; a run in which an *undo* fails to restore is left to C01 (run abandoned, counted in evidence)",
    "deterministic simulation: seeded history search + history-cursor reference model", "6 C02"),
  "C03": ("exploration",
-   "primary session plus 1-2 follower sessions (other hash seeds) in one process; the scheduler cuts the outgoing diff queue into batches (flush after every event / p=0.5 / p=0.1 / only at the end) and delivers them in order with a drawn lag; at every quiescent point and after a final flush+drain the followers' observable snapshots must equal the primary's and apply_external_diffs must have returned Ok. Loss, duplication and reordering are not injected: the statement assumes in-order exactly-once delivery.",
+   "primary session plus 1-2 follower sessions (other hash seeds) in one process, a sixth of the runs starting from an imported fixture of xlsx/tests (another default style, fonts, style pools); the scheduler cuts the outgoing diff queue into batches (flush after every event / p=0.5 / p=0.1 / only at the end) and delivers them in order with a drawn lag; at every quiescent point and after a final flush+drain the followers' observable snapshots must equal the primary's and apply_external_diffs must have returned Ok. Loss, duplication and reordering are not injected: the statement assumes in-order exactly-once delivery.",
    "bounds of DESIGN 2.2; followers use the primary's language (it is per-user state the queue does not carry)",
    "deterministic simulation: seeded schedule of batch cuts and deliveries, convergence invariant at quiescence", "6 C03"),
  "C04": ("fault_enumeration",
